@@ -59,13 +59,14 @@ def table(dd, acc):
     acc.add_extra('rule_table_cells', n)
 
 
-WORD = st.sampled_from(['', 'A', 'xAy', 'B', 'AA', 'yes'])
+# streams are compared byte for byte: line endings and trailing white space count
+WORD = st.sampled_from(['', 'A', 'xAy', 'B', 'AA', 'yes', 'A\n', 'A\r\n', 'A\r', 'A ', 'xAy\n', 'xAy\r\n'])
 EXITS = st.sampled_from([0, 0, 1, 2, 3])
 
 
 def triple(need_out=None, need_err=None):
-    o = WORD if not need_out else st.sampled_from(['A', 'xAy', 'AA'])
-    e = WORD if not need_err else st.sampled_from(['A', 'xAy', 'AA'])
+    o = WORD if not need_out else st.sampled_from(['A', 'xAy', 'AA', 'A\n', 'A\r\n', 'xAy\r\n'])
+    e = WORD if not need_err else st.sampled_from(['A', 'xAy', 'AA', 'A\n', 'A\r\n', 'xAy\r\n'])
     return st.tuples(EXITS, o, e)
 
 
